@@ -66,6 +66,14 @@ def main():
             res["suite_tail"] = outs[-800:]
     finally:
         sh(["git", "-C", "/repo", "worktree", "remove", "--force", wt])
+    # a re-evaluation without the suite keeps the suite result confirmed earlier
+    old_meta_path = os.path.join("/verif/seeded", sid, "meta.json")
+    if not suite and os.path.exists(old_meta_path):
+        om = json.load(open(old_meta_path))
+        for k in ("suite_with_change", "suite_tail"):
+            if k in om:
+                res[k] = om[k]
+        suite = "suite_with_change" in res
     confirmed = res.get("demo_without_change") == "pass" and res.get("demo_with_change") == "fail" and res.get("compiles") and (not suite or res.get("suite_with_change") == "pass")
     res["confirmed"] = bool(confirmed)
     # run the checks against /repo with the patch applied
